@@ -262,7 +262,8 @@ class Scn:
         from typing import get_args
         self.tagmap = [(1, get_args(Directive))]
         self.raw_tags = [0, 1]
-        self.view_specs = {'raw_directives': dict(get=lambda: f.raw_directives, tags=[1], kind='KNode', mapping=None)}
+        self.view_specs = {'raw_directives': dict(get=lambda: f.raw_directives, tags=[1], kind='KNode', mapping=None,
+                                                  owner=f, attr='directives')}
 
     def _txn(self, m, meta, postings, tagslinks=''):
         lines = [f'2000-01-01 * "x"{tagslinks}']
@@ -283,8 +284,8 @@ class Scn:
         self.tagmap = [(1, m.MetaItem)]
         self.raw_tags = [0, 1]
         self.view_specs = {
-            'raw_meta': dict(get=lambda: t.raw_meta, tags=[1], kind='KNode', mapping='raw'),
-            'meta': dict(get=lambda: t.meta, tags=[1], kind='KNode', mapping='meta'),
+            'raw_meta': dict(get=lambda: t.raw_meta, tags=[1], kind='KNode', mapping='raw', owner=t, attr='raw_meta'),
+            'meta': dict(get=lambda: t.meta, tags=[1], kind='KNode', mapping='meta', owner=t, attr='meta'),
         }
 
     def build_postings(self, m):
@@ -294,7 +295,8 @@ class Scn:
         self.raw.claim_interleaving_comments()
         self.tagmap = [(1, m.Posting)]
         self.raw_tags = [0, 1]
-        self.view_specs = {'postings': dict(get=lambda: t.postings, tags=[1], kind='KNode', mapping=None)}
+        self.view_specs = {'postings': dict(get=lambda: t.postings, tags=[1], kind='KNode', mapping=None, owner=t,
+                                            attr='postings')}
 
     def build_tagslinks(self, m):
         s = ''.join(f' #t{i % 2}' if t == 1 else f' ^l{i % 2}' for i, t in enumerate(self.layout))
@@ -304,8 +306,8 @@ class Scn:
         self.tagmap = [(1, m.Tag), (2, m.Link)]
         self.raw_tags = [1, 2]
         self.view_specs = {
-            'tags': dict(get=lambda: t.tags, tags=[1], kind='KString', mapping=None),
-            'links': dict(get=lambda: t.links, tags=[2], kind='KString', mapping=None),
+            'tags': dict(get=lambda: t.tags, tags=[1], kind='KString', mapping=None, owner=t, attr='tags'),
+            'links': dict(get=lambda: t.links, tags=[2], kind='KString', mapping=None, owner=t, attr='links'),
         }
 
     def build_currencies(self, m):
@@ -317,7 +319,8 @@ class Scn:
         self.owner, self.attr = o, 'raw_currencies'
         self.tagmap = [(1, m.Currency)]
         self.raw_tags = [1]
-        self.view_specs = {'currencies': dict(get=lambda: o.currencies, tags=[1], kind='KString', mapping=None)}
+        self.view_specs = {'currencies': dict(get=lambda: o.currencies, tags=[1], kind='KString', mapping=None, owner=o,
+                                              attr='currencies')}
 
     def build_custom(self, m):
         lit = {1: '"s{i}"', 2: '2000-01-0{d}', 3: 'TRUE', 4: '{i}.5', 5: 'Assets:C{i}', 6: '{i} USD'}
@@ -330,7 +333,8 @@ class Scn:
         self.tagmap = [(1, m.EscapedString), (2, m.Date), (3, m.Bool), (4, m.NumberExpr), (5, m.Account),
                        (6, m.Amount)]
         self.raw_tags = [1, 2, 3, 4, 5, 6]
-        self.view_specs = {'values': dict(get=lambda: c.values, tags=[1, 2, 3, 4, 5, 6], kind='KCustom', mapping=None)}
+        self.view_specs = {'values': dict(get=lambda: c.values, tags=[1, 2, 3, 4, 5, 6], kind='KCustom', mapping=None,
+                                          owner=c, attr='values')}
 
     def assign(self, wrapper: Any) -> None:
         """model.raw_xs = wrapper (whole-field reassignment); the assigned wrapper is the raw list from now on"""
@@ -491,7 +495,7 @@ class Gen:
             if k == 'r_set':
                 idx = gen_idx(rng, nraw)
                 if isinstance(idx, int):
-                    return [k, idx, [self.raw_spec()]]
+                    return [k, idx, [{'copy': 0} if rng.random() < 0.2 else self.raw_spec()]]
                 want = self.slice_len(idx, nraw)
                 return [k, idx, [self.raw_spec() for _ in range(want)]]
             if k == 'r_del':
@@ -516,7 +520,7 @@ class Gen:
                  'x_iadd', 'x_index', 'x_count', 'x_in', 'x_reversed', 'x_reverse']
         if scn.view_specs[v]['mapping']:
             kinds += ['m_get', 'm_contains', 'm_del', 'm_set', 'm_set', 'm_pop', 'm_pop', 'm_keys', 'm_values',
-                      'm_items', 'm_popitem', 'x_get', 'x_setdefault', 'x_update'] * 2
+                      'm_items', 'm_popitem', 'x_get', 'x_setdefault', 'x_update', 'm_dict', 'm_dict', 'm_dict'] * 2
         k = rng.choice(kinds)
         if k == 'v_clear' and rng.random() < 0.7:
             k = 'v_insert'
@@ -526,6 +530,12 @@ class Gen:
             return [k, v]
         if k == 'x_iadd':
             return [k, v, [self.view_spec(v) for _ in range(rng.randint(0, 2))]]
+        if k == 'm_dict':
+            q = rng.choice(['iter', 'len', 'rev', 'in', 'in', 'in'])
+            arg = None
+            if q == 'in':
+                arg = {'ref': rng.randrange(n)} if n and rng.random() < 0.6 else {'absent': rng.randint(0, 2)}
+            return [k, v, rng.choice(['keys', 'values', 'items']), q, arg]
         if k in ('x_index', 'x_count', 'x_in'):
             if n and rng.random() < 0.7:
                 return [k, v, {'ref': rng.randrange(n)}]
@@ -535,6 +545,8 @@ class Gen:
         if k == 'v_set':
             idx = gen_idx(rng, n)
             if isinstance(idx, int):
+                if n and -n <= idx < n and rng.random() < 0.25:
+                    return [k, v, idx, [{'copy': idx}]]
                 return [k, v, idx, [self.view_spec(v)]]
             want = self.slice_len(idx, n, exact=True)
             return [k, v, idx, [self.view_spec(v) for _ in range(want)]]
@@ -560,6 +572,8 @@ class Gen:
             return [k, v, key]
         if k in ('m_set', 'x_setdefault', 'x_update'):
             if scn.view_specs[v]['mapping'] == 'raw':
+                if key in present and rng.random() < 0.3:
+                    return [k, v, key, {'copy_key': key}]
                 spec = self.raw_spec([1])
                 if rng.random() < 0.8:
                     spec['k'] = key
@@ -804,7 +818,8 @@ class Runner:
         if self.post is not None and exc is None:
             msg = self.post(after)
             if msg:
-                self.fail('C10:mapping-semantics', f'{cls} on {scn.name}.{vname}: {msg}')
+                self.fail('C10:mapping-semantics' if kind[0] == 'm' or kind in ('x_setdefault', 'x_update')
+                          else 'C10:list-semantics', f'{cls} on {scn.name}.{vname or "raw"}: {msg}')
                 ok = False
         elif self.post is not None:
             self.fail('C10:mapping-semantics', f'{cls} on {scn.name}.{vname}: raised {exc}')
@@ -872,7 +887,7 @@ class Runner:
             got = after if vname is None else [scn.conv(vname, x) for x in self.filtered(vname, after)]
             if not self.same_list(vname, got, exp_list):
                 what = 'the resulting list is not the one the same operation gives on a Python list'
-            elif op[0][0] == 'x' or op[0] == 'm_popitem':
+            elif op[0][0] == 'x' or op[0] in ('m_popitem', 'm_dict'):
                 def eqv(a, b):
                     if isinstance(a, (list, tuple)) and isinstance(b, (list, tuple)):
                         return len(a) == len(b) and all(eqv(p, q) for p, q in zip(a, b))
@@ -966,7 +981,13 @@ class Runner:
             return f'(ORegister {coq_zlist(vs["tags"])} {vs["kind"]})', call, None
         if k[0] == 'r':
             if k == 'r_set':
-                idx, vals = op[1], [scn.make_raw(s) for s in op[2]]
+                idx = op[1]
+                if isinstance(idx, int) and 'copy' in op[2][0]:
+                    import copy
+                    vals = [copy.deepcopy(before[idx])] if -len(before) <= idx < len(before) else \
+                        [scn.make_raw({'t': scn.raw_tags[-1], 'n': 997, 's': 'zx'})]
+                else:
+                    vals = [scn.make_raw(s) for s in op[2]]
                 pi = py_idx(idx)
                 if isinstance(idx, int):
                     def f(c):
@@ -1016,7 +1037,20 @@ class Runner:
                 return f'(RDropMany {coq_zlist(ps)})', lambda: raw.drop_many(list(ps)), ref_apply(before, f)
             if k == 'r_iadd':
                 xs = [scn.make_raw(sp) for sp in op[1]]
-                return (f'(RExtend {self.EL(scn.elem(x) for x in xs)})', lambda: raw.__iadd__(xs) and None,
+                import operator
+
+                def call():     # exactly `model.raw_xs += xs`
+                    setattr(scn.owner, scn.attr, operator.iadd(getattr(scn.owner, scn.attr), xs))
+                views_before = dict(self.views)
+
+                def post(after):
+                    if getattr(scn.owner, scn.attr) is not raw:
+                        return 'raw += values replaced the raw wrapper'
+                    if any(scn.view_specs[n]['get']() is not w0 for n, w0 in views_before.items()):
+                        return 'raw += values dropped / rebuilt a cached view'
+                    return None
+                self.post = post
+                return (f'(RIAdd {self.EL(scn.elem(x) for x in xs)})', call,
                         ref_apply(before, lambda c: (c.extend(xs), _DEFAULT)[1]))
             if k == 'r_reverse':
                 return '(RReverse)', lambda: raw.reverse(), ref_apply(before, lambda c: (c.reverse(), _DEFAULT)[1])
@@ -1033,6 +1067,11 @@ class Runner:
         Cb = [scn.conv(v, x) for x in Fb]
 
         def val(spec):
+            if 'copy' in spec:      # a free deep copy of the element currently at that place (equal, not identical)
+                import copy
+                if Cb and scn.view_specs[v]['kind'] == 'KNode':
+                    return copy.deepcopy(Cb[spec['copy'] % len(Cb)])
+                return scn.make_value(v, {'t': scn.view_specs[v]['tags'][0], 'n': 998, 's': 'zy'})
             if 'ref' in spec:
                 return Cb[spec['ref'] % len(Cb)] if Cb else scn.make_value(v, {'t': scn.view_specs[v]['tags'][0], 'n': 999, 's': 'zz'})
             return scn.make_value(v, spec)
@@ -1042,7 +1081,16 @@ class Runner:
 
         if k == 'x_iadd':
             xs = [val(sp) for sp in op[2]]
-            return (f'(VExtend {vi} {self.EL(scn.value_elem(v, x) for x in xs)})', lambda: w.__iadd__(xs) and None,
+            import operator
+            vs = scn.view_specs[v]
+
+            def call():         # exactly `model.view += xs`
+                setattr(vs['owner'], vs['attr'], operator.iadd(getattr(vs['owner'], vs['attr']), xs))
+
+            def post(after):
+                return None if vs['get']() is w else 'view += values replaced the cached view object'
+            self.post = post
+            return (f'(VIAdd {vi} {self.EL(scn.value_elem(v, x) for x in xs)})', call,
                     ref_apply(Cb, lambda c: (c.extend(xs), _DEFAULT)[1]))
         if k == 'x_reverse':
             return f'(VReverse {vi})', lambda: w.reverse(), ref_apply(Cb, lambda c: (c.reverse(), _DEFAULT)[1])
@@ -1138,6 +1186,42 @@ class Runner:
         if k == 'm_items':
             return (f'(MItems {vi} {coq_bool(rawmap)})', lambda: list(w.items()),
                     (None, Cb, [(x.key, x) if rawmap else (x.key, x.value) for x in Fb]))
+        if k == 'm_dict':
+            which, q, arg = op[2], op[3], op[4]
+            wi = {'keys': 0, 'values': 1, 'items': 2}[which]
+            val_of = (lambda x: x) if rawmap else (lambda x: x.value)
+            L = [x.key if wi == 0 else val_of(x) if wi == 1 else (x.key, val_of(x)) for x in Fb]
+
+            def enc(o):
+                def ev(x):
+                    return scn.elem(x) if rawmap else (0, 0, scn.code(('mv', repr(x))))
+                if wi == 0:
+                    return (0, scn.code(('k', o)), 0)
+                if wi == 1:
+                    return ev(o)
+                e0 = ev(o[1])
+                return (e0[0], scn.code(('k', o[0])), e0[2])
+            dv = lambda: getattr(w, which)()   # noqa: E731
+            if q == 'iter':
+                self.force_out = lambda ret: [enc(o) for o in ret]
+                return f'(MDict {vi} {wi} {coq_bool(rawmap)} DIter)', lambda: list(dv()), (None, Cb, list(L))
+            if q == 'rev':
+                self.force_out = lambda ret: [enc(o) for o in ret]
+                return (f'(MDict {vi} {wi} {coq_bool(rawmap)} DReversed)', lambda: list(reversed(dv())),
+                        (None, Cb, list(reversed(L))))
+            if q == 'len':
+                self.force_out = lambda ret: [(0, 0, ret)]
+                return f'(MDict {vi} {wi} {coq_bool(rawmap)} DLen)', lambda: len(dv()), (None, Cb, len(L))
+            if 'ref' in arg and L:
+                qv = L[arg['ref'] % len(L)]
+            else:
+                fresh_v = scn.make_raw({'t': 1, 'n': 990 + arg.get('absent', 0), 'k': 'k9'}) if rawmap else D(99990)
+                other = L[0] if L else None
+                qv = 'k9' if wi == 0 else fresh_v if wi == 1 else \
+                    (('k9', other[1]) if other is not None and arg.get('absent') == 1 else ('k9', fresh_v))
+            self.force_out = lambda ret: [(0, 0, 1 if ret else 0)]
+            return (f'(MDict {vi} {wi} {coq_bool(rawmap)} (DIn {self.E(enc(qv))}))', lambda: qv in dv(),
+                    (None, Cb, any(o is qv or o == qv for o in L)))
         if k == 'm_popitem':
             exp = ('KeyError', None, _DEFAULT) if not Fb else \
                 (None, Cb[1:], (Fb[0].key, Fb[0] if rawmap else Fb[0].value))
@@ -1145,13 +1229,19 @@ class Runner:
         key = op[2]
         kc = scn.code(('k', key))
         pos = next((i for i, x in enumerate(Fb) if x.key == key), None)
+
+        def raw_item(spec):
+            if 'copy_key' in spec:
+                import copy
+                return copy.deepcopy(Fb[pos]) if pos is not None else scn.make_raw({'t': 1, 'n': 996, 'k': key})
+            return scn.make_raw(spec)
         if k == 'x_get':
             self.force_out = lambda ret: [(0, 0, 0 if ret is _DEFAULT else 1)]
             return (f'(MContains {vi} {kc})', lambda: w.get(key, _DEFAULT),
                     (None, Cb, _DEFAULT if pos is None else (Fb[pos] if rawmap else Fb[pos].value)))
         if k in ('x_setdefault', 'x_update'):
             if rawmap:
-                x = scn.make_raw(op[3])
+                x = raw_item(op[3])
                 call = (lambda: w.setdefault(key, x)) if k == 'x_setdefault' else (lambda: w.update({key: x}))
                 if k == 'x_setdefault' and pos is not None:
                     self.force_out = lambda ret: [scn.elem(ret)]
@@ -1197,7 +1287,7 @@ class Runner:
             return f'(MPop {vi} {coq_bool(rawmap)} {kc} {coq_bool(dflt)})', call, exp
         if k == 'm_set':
             if rawmap:
-                x = scn.make_raw(op[3])
+                x = raw_item(op[3])
                 exp = (None, Cb + [x] if pos is None else Cb[:pos] + [x] + Cb[pos + 1:], _DEFAULT)
                 return (f'(MSet {vi} true {kc} {self.E(scn.elem(x))})', lambda: w.__setitem__(key, x), exp)
             mv = D(op[3]['mv'])
@@ -1247,11 +1337,43 @@ def gen_history(rng, n_ops: int):
     return name, layout, scn_ops, r
 
 
+# directed histories (run first on every run): the mapping layer with claimed standalone comments before the key,
+# identity of an assigned equal-but-not-identical node, += through attributes, dict views with duplicate keys
+DIRECTED = [
+    ('meta', [0, 1, 0, 1, 1], [['reg', 'meta'], ['reg', 'raw_meta'], ['m_del', 'meta', 'k0'], ['m_del', 'raw_meta', 'k1'],
+                               ['m_dict', 'meta', 'keys', 'iter', None]]),
+    ('meta', [0, 0, 1, 0, 1, 1, 0, 1], [['reg', 'meta'], ['m_del', 'meta', 'k1'], ['m_pop', 'meta', 'k2', False],
+                                        ['m_del', 'meta', 'k1'], ['v_iter', 'meta']]),
+    ('meta', [0, 1, 1, 0, 1], [['reg', 'raw_meta'], ['m_set', 'raw_meta', 'k1', {'copy_key': 'k1'}],
+                               ['v_set', 'raw_meta', 1, [{'copy': 1}]], ['v_set', 'raw_meta', -1, [{'copy': -1}]],
+                               ['r_set', 0, [{'copy': 0}]], ['r_set', 2, [{'copy': 0}]]]),
+    ('postings', [1, 0, 1, 1], [['reg', 'postings'], ['v_set', 'postings', 1, [{'copy': 1}]], ['r_set', 3, [{'copy': 0}]],
+                                ['x_iadd', 'postings', [{'t': 1, 'n': 801}]], ['r_iadd', [{'t': 0, 'n': 802}]]]),
+    ('directives', [0, 1, 0, 1], [['reg', 'raw_directives'], ['v_set', 'raw_directives', 0, [{'copy': 0}]],
+                                  ['x_iadd', 'raw_directives', [{'t': 1, 'n': 803}]], ['r_iadd', [{'t': 1, 'n': 804}]]]),
+    ('tagslinks', [1, 2, 1], [['reg', 'tags'], ['reg', 'links'], ['x_iadd', 'tags', [{'s': 'zz'}]],
+                              ['x_iadd', 'links', [{'s': 'yy'}]], ['r_iadd', [{'t': 2, 'n': 805, 's': 'xx'}]]]),
+    ('currencies', [1, 1], [['reg', 'currencies'], ['x_iadd', 'currencies', [{'s': 'CAA'}]]]),
+    ('custom', [1, 5, 4], [['reg', 'values'], ['x_iadd', 'values', [{'t': 3, 'n': 806}]]]),
+    ('meta', [1, 1, 1, 1, 1], [['reg', 'meta'], ['reg', 'raw_meta'],
+                               ['m_dict', 'meta', 'keys', 'in', {'ref': 3}], ['m_dict', 'meta', 'items', 'in', {'ref': 4}],
+                               ['m_dict', 'raw_meta', 'values', 'in', {'ref': 0}], ['m_dict', 'raw_meta', 'items', 'in', {'absent': 1}],
+                               ['m_dict', 'meta', 'values', 'rev', None], ['m_dict', 'raw_meta', 'keys', 'len', None],
+                               ['m_dict', 'meta', 'keys', 'in', {'absent': 0}], ['x_iadd', 'raw_meta', [{'t': 1, 'n': 807, 'k': 'k0'}]],
+                               ['m_dict', 'meta', 'keys', 'iter', None]]),
+]
+
+
 def run_all(ctx: common.Ctx):
     n_hist = ctx.scale(700, 6000)
     cases, metas = [], []
-    for _ in range(n_hist):
-        name, layout, ops, r = gen_history(ctx.rng, ctx.rng.choice([6, 10, 16, 24]))
+    for h in range(-len(DIRECTED), n_hist):
+        if h < 0:
+            name, layout, ops = DIRECTED[h + len(DIRECTED)]
+            r = run_history(name, layout, ops)
+            ctx.count('directed_histories')
+        else:
+            name, layout, ops, r = gen_history(ctx.rng, ctx.rng.choice([6, 10, 16, 24]))
         if r.foreign:
             ops = ops[:r.executed]
         views_used = len(r.registered)
